@@ -786,3 +786,48 @@ func famStaleRepl(t *testing.T, seed int64, steps int) *Cluster {
 	c.converge(500 * time.Millisecond)
 	return c
 }
+
+// famDemoteElect: the leader hands X its own demotion (uncommitted) and is lost; the other voters never saw the
+// entry. X is a non-voter in its latest configuration and must not be elected, however long the others stay quiet.
+func famDemoteElect(t *testing.T, seed int64, steps int) *Cluster {
+	opt := DefaultOptions(seed)
+	opt.Family = "demoteelect"
+	opt.Servers = []string{"n1", "n2", "n3", "n4"}
+	opt.Initial = map[string]string{"n1": "V", "n2": "V", "n3": "V", "n4": "V"}
+	c := NewCluster(t, opt)
+	c.Bootstrap()
+	c.StartAll()
+	A := c.WaitLeader(2 * time.Second)
+	if A == "" {
+		return c
+	}
+	var others []string
+	for _, id := range opt.Servers {
+		if id != A {
+			others = append(others, id)
+		}
+	}
+	X := others[int(seed)%3]
+	c.Apply(A, 0)
+	c.Settle("client")
+	c.Drive(100*time.Millisecond, nil, nil)
+	if c.Leader() != A {
+		c.converge(500 * time.Millisecond)
+		return c
+	}
+	cmd := []string{"demote", "remove"}[int(seed/3)%2]
+	c.Member(A, cmd, X, 0, 0)
+	c.Settle("client")
+	// the configuration entry reaches X only
+	c.Drive(60*time.Millisecond, func(r *Rpc) bool {
+		return !(r.Src == A && r.Dst != X && r.Kind == "ae" && len(r.Req.(*raft.AppendEntriesRequest).Entries) > 0)
+	}, func() bool { return c.byID[X].Raft.LastIndex() >= c.byID[A].Raft.LastIndex() })
+	c.Crash(A)
+	c.Settle("crash")
+	c.dropPendingFrom(A)
+	// the others stay quiet for a while: only X could campaign
+	c.Drive(600*time.Millisecond, func(r *Rpc) bool { return r.Src == X || r.Phase != phReq || !(r.Kind == "pv" || r.Kind == "rv") }, nil)
+	c.Drive(600*time.Millisecond, nil, nil)
+	c.converge(600 * time.Millisecond)
+	return c
+}
